@@ -74,6 +74,15 @@ def gen_case(d, family='small', enzymes=None, n_small=(1, 5), ref_kw=None, alt=T
     kw.update(ref_kw or {})
     refd = refgen.gen_reference(d, **kw)
     ref = Ref(refd)
+    intragenic = False
+    if family == 'fusion' and d.chance(0.25):
+        # a fusion between two isoforms of one gene (read-through / intragenic rearrangement)
+        for _ in range(4):
+            cand = refgen.gen_reference(d, **dict(kw, n_genes=(1, 1), max_tx=3,
+                n_exons=(2, 4)))
+            if len(Ref(cand).txs) >= 2:
+                refd, ref, intragenic = cand, Ref(cand), True
+                break
     records = []
     tids = list(ref.txs)
     if family == 'small' and d.chance(0.08):
@@ -169,7 +178,10 @@ def gen_case(d, family='small', enzymes=None, n_small=(1, 5), ref_kw=None, alt=T
                 and len(r['alt']) > 1)]
     if novel and family in ('small', 'multi') and d.chance(0.15):
         opts['coding_novel_orf'] = True
-    return dict(family=family, ref=refd, records=records, opts=opts)
+    case = dict(family=family, ref=refd, records=records, opts=opts)
+    if intragenic:
+        case['intragenic'] = True
+    return case
 
 
 def plant_lookbehind_gain(d, refd, tid):
